@@ -811,6 +811,8 @@ def run(ctx):
         return res
     scenarios = gen_scenarios(ctx, ctx.rng("process"))
     scenarios.append(dict(kind="failed-make", spec="popen//id=x", taken=True))
+    # an id that can never be registered (empty): refused before anything is started (D31)
+    scenarios.append(dict(kind="failed-make", spec="popen//id=", taken=False))
     scenarios += gen_concurrent_make(ctx.rng("concurrent-make"), ctx.budget(12, 300, 60))
     check_scenarios(ctx, res, scenarios, "gen")
     return res
